@@ -691,9 +691,19 @@ def _dispatch(ctx, prog):
             raised = any("FilterException" in (e.data.get("exc_name") or "")
                          and tm.is_const(e.live, True)
                          for e in r.of_kind("raise"))
-            ctx.ob("C10.6", f, raised and not calls,
-                   f"delta unit {member}: refused with FilterException"
-                   if raised and not calls else
+            # a unit the property does not define is either refused or has
+            # a filter of its own (whose semantics this property does not
+            # cover); it must not fall through, and must not be fed to the
+            # frame / path / angle filters in that unit
+            own = bool(calls) and not any(
+                c.data["target"].qualname in (FI, FP, FA) for c in calls)
+            ok = (raised and not calls) or own
+            ctx.ob("C10.6", f, ok,
+                   (f"delta unit {member}: refused with FilterException"
+                    if not own else
+                    f"delta unit {member}: handled by its own filter "
+                    f"{calls[0].data['target'].name} (outside the units this "
+                    f"property defines)") if ok else
                    f"delta unit {member} is not refused",
                    key=f"C10.6:{member}:refused")
             continue
